@@ -2,7 +2,7 @@
 
 Generated (all exponents log-uniform by construction; |mu| is *computed* from the drawn effective
 rigidity m_l so stiff, intermediate and soft bodies are equally likely):
-  R 1e5..1e8 m, rho 10^[2.7,4.3], l 2..10, m_l 10^[-2,3], arg(mu) in [0,1.5], integrator in
+  R 1e5..1e8 m, rho 10^[2.7,4.3], l 2..10, m_l 10^[-3,3], arg(mu) in [0,1.5], integrator in
   {RK23,RK45,DOP853}, configuration in {static/compressible/Takeuchi, static/compressible/Kamata,
   dynamic/compressible/Takeuchi, dynamic/compressible/Kamata, dynamic/incompressible/Kamata}
   (+ the three combinations documented as not implemented: generated too, discarded if rejected, judged like any other
@@ -11,12 +11,19 @@ rigidity m_l so stiff, intermediate and soft bodies are equally likely):
   atol = 1e-4 rtol, K = 10^[6,9] * max(|mu|, rho g R), omega^2 R/g in 10^[-12,-7] (10^[-8,-5] for
   dynamic/incompressible Kamata); `solve_for` in {(tidal), (tidal, loading), (loading, tidal), (free, tidal, loading)} - the tidal
   entry is the one compared.
+  In a third of the cases the same uniform sphere is handed over as a stack of 2-3 layers of identical material (interfaces at
+  generated radii, sampled on both sides) whose upper layers carry their own generated static / incompressible flags - the only
+  way to reach the static-incompressible equations, which have no starting conditions.  Layers flagged incompressible get a
+  finite, realistic bulk modulus (1e9..1e12 Pa, documented as ignored) instead of the compressible-limit value.
 
 Oracle: k_l = 3/(2(l-1))/(1+m_l), h_l = (2l+1) k_l/3, l_l = k_l/l, complex m_l.
 Each case is solved at rtol and rtol/100; delta = max|love - love_tight| is the measured
 convergence error.  Discarded (property precondition "reports success and is converged"): either
 solve unsuccessful, or delta > 1e-4.  Otherwise
     max(|dk|,|dh|,|dl|) <= 1e-6 + 50 delta + 30 (|mu| + rho g R)/K + 30 omega^2 R/g   (absolute, O(1) scale)
+(K = smallest bulk modulus among the layers NOT flagged incompressible; for the soft bodies m_l < 1e-2 added later the floor is
+3e-6 (1e-2/m_l) and the dynamic term carries a factor (1 + 0.02/m_l): inertia then competes with the small elastic restoring
+force, measured 1.06e-3 at w^2R/g = 1e-5, m_l = 1e-3)
 Calibration on the unchanged tree (60 random cases while writing + the quick tier): worst ratio
 error/tolerance 0.09; static K=1e17 cases reproduce the closed form to 3e-9.
 
@@ -27,10 +34,11 @@ success=True) where the closed form - and DOP853, or RK45 at 1e-10 - give 0.75. 
 linearly dependent in the quasi-static limit.  Cases of that regime (config, w^2R/g < 1e-6, RK23/RK45) carry
 `regime: quasi_static_low_order` in their signature; everything else failing is a violation.
 
-Non-trivial: converged, all three numbers compared, 1e-2 <= |m_l| <= 1e3.
+Non-trivial: converged, all three numbers compared, 1e-3 <= |m_l| <= 1e3.
 
 Sensitivity (tools/mut.py on generated C, all CAUGHT, see DESIGN 2/C01 and the commit log of /verif):
   love.c: `- 1.0` dropped in k;  boundaries.c (2l+1) -> (2l);  odes.c one coefficient.
+Seeded changes C01-1..4 and C05-4 (a unit slip that only acts on soft layers on the non-dimensionalised route): CAUGHT.
 """
 import cmath
 import math
@@ -201,7 +209,10 @@ def evaluate(case):
     # dynamic correction: ~ w^2 R/g for stiff bodies; for soft bodies (new domain m_l < 1e-2) the inertial term competes with the
     # small elastic restoring force instead, ~ 0.1 (w^2 R/g) / m_l (measured 1.06e-3 at w^2R/g = 1e-5, m_l = 1e-3)
     dyn_term = 30.0 * q['w2'] * (1.0 + (0.02 / q['m_abs'] if q['m_abs'] < 1e-2 else 0.0))
-    tol = 1e-6 + 50.0 * delta + comp_term + dyn_term
+    # floor: 1e-6 on the established domain; for the soft bodies added later (m_l < 1e-2) the start-radius / conditioning error
+    # grows like 1/m_l (thorough tier: 5.5e-6 at m_l = 2.5e-3 with Takeuchi starts, delta 6e-8) - 3e-6 (1e-2 / m_l) there
+    floor = 1e-6 if q['m_abs'] >= 1e-2 else 3e-6 * (1e-2 / q['m_abs'])
+    tol = floor + 50.0 * delta + comp_term + dyn_term
     nontrivial = 1e-3 <= q['m_abs'] <= 1e3
     c = Collector(labels, nontrivial=nontrivial)
     c.label('m:stiff' if q['m_abs'] > 10 else 'm:soft' if q['m_abs'] < 0.1 else 'm:mid')
